@@ -196,7 +196,9 @@ func (ps *InitialPacketSpec) validate(udpDatagramMinSize, maxPacketSize int) err
 	// ever sent and the dial just times out), and a CryptoLength that pins the split must fit
 	// its packet (else the CRYPTO stream is silently cut somewhere else).
 	maxHdr := ps.maxInitialHeaderLen()
-	const aeadTag, minCryptoFrame = 16, 1 + 1 + 1 + 1 // type, offset, length, one byte
+	// type, offset varint (up to 8 bytes: with room for a 1-byte offset only, the flight sends one
+	// byte per packet and stalls when the write offset reaches 64), length, one byte of data
+	const aeadTag, minCryptoFrame = 16, 1 + 8 + 1 + 1
 	if maxHdr+aeadTag+minCryptoFrame > maxPacketSize {
 		return fmt.Errorf("uquic: invalid QUICSpec: an Initial header of up to %d bytes (ClientTokenLength/ClientTokenPrefix: %d-byte token) leaves no room for CRYPTO data in a %d-byte packet", maxHdr, ps.tokenLength(), maxPacketSize)
 	}
